@@ -84,7 +84,7 @@ func era(unixLocal int64) string {
 
 // C20 — scalar conversions exact over each type's documented range.
 func C20(c *vk.Ctx) {
-	c.Rule("every Date (65536) and every Date32 day 1900-01-01..2299-12-31 x 4 times of day x 29 fixed zones; DateTime seconds (quick: all multiples of 3600 +-1 and range ends; thorough: all 2^32); DateTime64 at precisions 0..9 over a lattice of year starts, range ends, epoch and UnixNano limits +-1 tick with aligned and unaligned sub-second parts; wide-integer helpers on a boundary lattice checked against math/big two's complement; IPv4 (quick: 6^4 byte lattice + stride 65537; thorough: all 2^32), IPv6 lattice; Interval.Add for every scale x {0,+-1,+-13} x dates with day<=28. A case is non-trivial when it is a distinct (function, input) pair; all are distinct by construction.")
+	c.Rule("every Date (65536) and every Date32 day 1900-01-01..2299-12-31 x 4 times of day x 29 fixed zones; DateTime seconds (quick: all multiples of 3600 +-1 and range ends; thorough: all 2^32); DateTime64 at precisions 0..9 over a lattice of year starts, range ends, epoch and UnixNano limits +-1 tick with aligned and unaligned sub-second parts; wide-integer helpers on a boundary lattice checked against math/big two's complement; IPv4 (quick: 6^4 byte lattice + stride 65537; thorough: all 2^32), IPv6 lattice; every one of these instants also enters the matching column through Append, AppendArr, Array.Append, Nullable.Append and Nullable.AppendArr (dates: all 4 times of day in one zone per day, cycling through the zones) and must store what the scalar conversion gives and read back what the scalar back-conversion gives; Interval.Add for every scale x {0,+-1,+-13} x dates with day<=28. A case is non-trivial when it is a distinct (function, input) pair; all are distinct by construction.")
 	c20Dates(c)
 	c20DateTime(c)
 	c20DateTime64(c)
@@ -94,13 +94,38 @@ func C20(c *vk.Ctx) {
 	c20Interval(c)
 }
 
+// ingest20 stores t through every way a time enters a column (Append, AppendArr, as an
+// Array element, as a Nullable value, as a Nullable batch) and returns what each stored
+// and what each reads back. The oracle at the call sites is agreement with the scalar
+// conversion, which is itself checked exhaustively: no path may convert on its own terms.
+func ingest20(mk func() proto.ColumnOf[time.Time], raw func(proto.ColumnOf[time.Time], int) int64, t time.Time) (names []string, raws []int64, rows []time.Time) {
+	add := func(n string, r int64, row time.Time) {
+		names, raws, rows = append(names, n), append(raws, r), append(rows, row)
+	}
+	col := mk()
+	col.Append(t)
+	add("Append", raw(col, 0), col.Row(0))
+	col.AppendArr([]time.Time{t, t})
+	add("AppendArr", raw(col, 2), col.Row(2))
+	arr := proto.NewArray[time.Time](mk())
+	arr.Append([]time.Time{t})
+	add("Array.Append", raw(arr.Data, 0), arr.Row(0)[0])
+	nul := proto.NewColNullable[time.Time](mk())
+	nul.Append(proto.NewNullable(t))
+	add("Nullable.Append", raw(nul.Values, 0), nul.Row(0).Value)
+	nul.AppendArr([]proto.Nullable[time.Time]{proto.NewNullable(t)})
+	add("Nullable.AppendArr", raw(nul.Values, 1), nul.Row(1).Value)
+	return
+}
+
 func c20Dates(c *vk.Ctx) {
 	zones := make([]*time.Location, len(c20Zones))
 	for i, off := range c20Zones {
 		zones[i] = time.FixedZone(fmt.Sprintf("Z%+d", off), off)
 	}
 	// cross-check the calendar model against package time once per day
-	check := func(kind string, day int64, to func(time.Time) int64, back func(int64) time.Time, str func(int64) string, mk func(y int, m time.Month, d int) int64) {
+	check := func(kind string, day int64, to func(time.Time) int64, back func(int64) time.Time, str func(int64) string, mk func(y int, m time.Month, d int) int64,
+		mkCol func() proto.ColumnOf[time.Time], raw func(proto.ColumnOf[time.Time], int) int64) {
 		y, m, d := civilFromDays(day)
 		if daysFromCivil(y, m, d) != day {
 			panic("calendar model is not self-inverse")
@@ -149,6 +174,22 @@ func c20Dates(c *vk.Ctx) {
 				}
 			}
 		}
+		// every ingestion path of the column, in one zone per day (cycling through all zones)
+		zi := int(((day % int64(len(zones))) + int64(len(zones))) % int64(len(zones)))
+		for _, tod := range c20Tods {
+			t := time.Unix(day*86400+tod-int64(c20Zones[zi]), 0).In(zones[zi])
+			if t.IsZero() {
+				continue
+			}
+			names, raws, rows := ingest20(mkCol, raw, t)
+			for i, nm := range names {
+				n++
+				if raws[i] != to(t) || !rows[i].Equal(back(raws[i])) {
+					c.Violation("C20/Col"+kind+"/"+nm+"-differs-from-To"+kind, fmt.Sprintf("%s/zone=%d/tod=%d", id, c20Zones[zi], tod),
+						fmt.Sprintf("%s(%v) stored %d (reads back %v); To%s gives %d", nm, t, raws[i], rows[i], kind, to(t)), nil)
+				}
+			}
+		}
 		c.Eval(kind, n)
 		c.DistinctN(n)
 	}
@@ -160,7 +201,9 @@ func c20Dates(c *vk.Ctx) {
 			func(t time.Time) int64 { return int64(proto.ToDate(t)) },
 			func(d int64) time.Time { return proto.Date(d).Time() },
 			func(d int64) string { return proto.Date(d).String() },
-			func(y int, m time.Month, d int) int64 { return int64(proto.NewDate(y, m, d)) })
+			func(y int, m time.Month, d int) int64 { return int64(proto.NewDate(y, m, d)) },
+			func() proto.ColumnOf[time.Time] { return new(proto.ColDate) },
+			func(col proto.ColumnOf[time.Time], i int) int64 { return int64((*col.(*proto.ColDate))[i]) })
 	}
 	lo, hi := daysFromCivil(1900, 1, 1), daysFromCivil(2299, 12, 31)
 	for day := lo; day <= hi; day++ {
@@ -171,7 +214,9 @@ func c20Dates(c *vk.Ctx) {
 			func(t time.Time) int64 { return int64(proto.ToDate32(t)) },
 			func(d int64) time.Time { return proto.Date32(d).Time() },
 			func(d int64) string { return proto.Date32(d).String() },
-			func(y int, m time.Month, d int) int64 { return int64(proto.NewDate32(y, m, d)) })
+			func(y int, m time.Month, d int) int64 { return int64(proto.NewDate32(y, m, d)) },
+			func() proto.ColumnOf[time.Time] { return new(proto.ColDate32) },
+			func(col proto.ColumnOf[time.Time], i int) int64 { return int64((*col.(*proto.ColDate32))[i]) })
 	}
 	c.Sample(map[string]any{"kind": "Date32", "day": lo, "civil": "1900-01-01", "zones": len(zones), "times_of_day": c20Tods})
 }
@@ -189,6 +234,17 @@ func c20DateTime(c *vk.Ctx) {
 				n++
 				if got := proto.ToDateTime(t); int64(got) != s {
 					c.Violation("C20/ToDateTime", fmt.Sprintf("DateTime/s=%d", s), fmt.Sprintf("ToDateTime(%v)=%d want %d", t, got, s), nil)
+				}
+			}
+		}
+		if full {
+			t := time.Unix(s, 999999999).In(locs[1])
+			names, raws, rows := ingest20(func() proto.ColumnOf[time.Time] { return new(proto.ColDateTime) },
+				func(col proto.ColumnOf[time.Time], i int) int64 { return int64(col.(*proto.ColDateTime).Data[i]) }, t)
+			for i, nm := range names {
+				n++
+				if raws[i] != int64(proto.ToDateTime(t)) || rows[i].Unix() != raws[i] {
+					c.Violation("C20/ColDateTime/"+nm+"-differs-from-ToDateTime", fmt.Sprintf("DateTime/s=%d", s), fmt.Sprintf("%s(%v) stored %d (reads back %v); ToDateTime gives %d", nm, t, raws[i], rows[i], proto.ToDateTime(t)), nil)
 				}
 			}
 		}
@@ -292,6 +348,19 @@ func c20DateTime64(c *vk.Ctx) {
 					ok := got == floorV || (!aligned && got == floorV+1)
 					if !ok {
 						c.Violation("C20/ToDateTime64/"+cls, id, fmt.Sprintf("ToDateTime64(%v, %d)=%d want %d (exact ticks; aligned=%v)", t.UTC(), p, got, floorV, aligned), nil)
+					}
+				}
+				// every ingestion path of the column agrees with the scalar conversion
+				{
+					t := time.Unix(sec, ns).In(locs[3])
+					want := int64(proto.ToDateTime64(t, proto.Precision(p)))
+					names, raws, rows := ingest20(func() proto.ColumnOf[time.Time] { return new(proto.ColDateTime64).WithPrecision(proto.Precision(p)) },
+						func(col proto.ColumnOf[time.Time], i int) int64 { return int64(col.(*proto.ColDateTime64).Data[i]) }, t)
+					for i, nm := range names {
+						n++
+						if raws[i] != want || !rows[i].Equal(proto.DateTime64(raws[i]).Time(proto.Precision(p))) {
+							c.Violation("C20/ColDateTime64/"+nm+"-differs-from-ToDateTime64/"+cls, id, fmt.Sprintf("%s(%v) at precision %d stored %d (reads back %v); ToDateTime64 gives %d", nm, t.UTC(), p, raws[i], rows[i].UTC(), want), nil)
+						}
 					}
 				}
 				// back conversion of the exact tick value
